@@ -25,6 +25,18 @@ CLAIMS = {
  "C07": dict(technique="Lean 4 theorems (Coherent per configuration, derived generically from C01+C02) + year-block correspondence",
              text="Machine-checked proof: `Coherent c short`: every reported month length is the gap between consecutive month starts, the twelve lengths sum to the year length, and the year is reported leap exactly when it is the long year, for all years in Z; tie: year blocks (IsLeap, GetMonthLen, ToJd of every day) over all years of the domain.",
              design="7 (C07)", note=CAL_NOTE),
+ "C04": dict(technique="Lean 4 theorems about the faithful k-ary sweep model (inter_main, inter_depends_on_sets) + exhaustive small-scope and random correspondence",
+             text="Machine-checked proof: for any non-empty tuple of lists of well-formed intervals (any number of operands, any lengths, unbounded positions) the model of IntersectionOfSomeIntervalLists succeeds, returns a canonical list, and that list denotes exactly the intersection on the half-integer observation lattice; uniqueness of canonical forms gives independence of operand order, grouping, inner order and duplicates; operands-after denote the same sets. Tie: exhaustive small scopes and seeded random tuples, result and operands-after compared line by line with the real code, plus direct lattice evaluation on the real result.",
+             design="7 (C04)", note="Trusted: Lean kernel + standard axioms; the correspondence check. Modelled: sort.Sort as any correct sort (sorted permutation is unique, proved), int64 positions as Int with the MIN_INT64 sentinel as `none` (domain |x|<2^62)."),
+ "C05": dict(technique="Lean 4 theorems about the faithful Normalize model (norm_ok, norm_mem, norm_canonical, canonical_unique, idempotence) + exhaustive small-scope correspondence",
+             text="Machine-checked proof: Normalize (points + sort by Less + stack sweep) never fails on start<=end input, preserves lattice membership (also with empty [a,a) intervals), returns the canonical form, canonical forms are unique, hence order/duplicate independence and idempotence; lists of any length. Tie: all lists of <=3 (quick) / <=4 (thorough) intervals over end points 0..6 in every order, lists with empty intervals, random lists up to 60 intervals with |x|<2^62; input immutability is checked on the real code.",
+             design="7 (C05)", note="As C04."),
+ "C13": dict(technique="Lean 4 theorems (humanize_mem/shape, extract_byNumList, parse/show round trips for intervals and lists, reversed text rejected) + exhaustive correspondence",
+             text="Machine-checked proof of each clause on the model: Humanize keeps lattice membership and leaves only half-open intervals and points; Extract(IntervalListByNumList(ns,k)) = ns for every integer list and every threshold; ParseInterval(String(i)) = i for every well-formed interval (all signs, both end kinds) and ParseIntervalList(String(l)) = l for every non-empty list; `a-b` with b<a is rejected. Tie: exhaustive over the property's small scopes plus seeded random, model vs real code per line.",
+             design="7 (C13)", note="Trusted: Lean kernel + standard axioms; the correspondence check. Modelled: strings as character lists, fmt %d as the decimal printer, strconv.ParseInt as sign + digits WITHOUT the int64 range check (texts with a digit run > 18 are answered `unmodelled` and compared for totality only), strings.Split/HasPrefix/HasSuffix/Index as list functions."),
+ "C19": dict(technique="Lean 4 theorems (floor-division characterisation + uniqueness, BisectLeft specification via the sort.Search binary search) + exhaustive correspondence",
+             text="Machine-checked proof: Div/Mod as written (truncate, sign test, adjust) satisfy a=b*q+r, r zero or of the sign of b, |r|<|b| for all a and b != 0, and any pair with these properties is theirs (so they are Python's // and %); BisectLeft returns the least index with a[i] >= v on sorted input. Tie: exhaustive a in [-600,600] x b in [-40,40]\\{0}, random 64-bit incl. extremes, all sorted lists <=6 over 0..5.",
+             design="7 (C19)", note="Trusted: Lean kernel + standard axioms; the correspondence check. Modelled: Go / and % as Int.tdiv/Int.tmod on unbounded Int (MinInt/-1 excluded as in the property); sort.Search as the stdlib binary search."),
 }
 
 PENDING = {}
